@@ -224,22 +224,29 @@ func c16Ops() []timedOp {
 					if en.K != h.E || en.Err == h.ErrSrc {
 						continue
 					}
-					// a timeout error at T: the source was silent during [T-p, T] and had not terminated
+					// a timeout error at T: the source had not terminated, and no value went through the operator
+					// during the p before T. Activity is measured where the operator hands the value on (a
+					// producer may be descheduled between taking its timestamp and reaching the operator; a
+					// value that arrives at the very instant T, after the timer fired and before its goroutine
+					// delivered the error, does not shorten the quiet period that ended at T).
 					T := en.T
 					lastActivity := l.subAt
 					for _, em := range l.ems {
-						if em.at <= T && em.tick < en.In {
-							if em.e.K != h.N {
-								add("timeout-after-source-terminated", "late", fmt.Sprintf("timeout error at %s although the source had already terminated at %s", ms(T), ms(em.at)))
-								return
-							}
-							if em.at > lastActivity {
-								lastActivity = em.at
-							}
+						if em.at <= T && em.tick < en.In && em.e.K != h.N {
+							add("timeout-after-source-terminated", "late", fmt.Sprintf("timeout error at %s although the source had already terminated at %s", ms(T), ms(em.at)))
+							return
+						}
+					}
+					for _, prev := range out {
+						if prev.In >= en.In {
+							break
+						}
+						if prev.K == h.N && prev.T > lastActivity && prev.T < T {
+							lastActivity = prev.T
 						}
 					}
 					if T-lastActivity < int64(p) {
-						add("emitted-early", "timeout", fmt.Sprintf("error %q at %s but the source was last active at %s: quiet for less than %s", en.Err.Error(), ms(T), ms(lastActivity), ms(int64(p))))
+						add("emitted-early", "timeout", fmt.Sprintf("error %q at %s but a value went through at %s: quiet for less than %s", en.Err.Error(), ms(T), ms(lastActivity), ms(int64(p))))
 					}
 				}
 				if !subsequenceOf(vals, srcValues(l)) {
@@ -478,7 +485,16 @@ func timelines(d time.Duration, n int) [][]tlItem {
 }
 
 func c16Case(op timedOp, tl []tlItem, cutAt time.Duration, bound int) fw.Case {
+	return c16CaseSlow(op, tl, cutAt, bound, 0)
+}
+
+// c16CaseSlow: as c16Case, with an observer whose Next callback takes `slow` of virtual time (a
+// consumer slower than the configured duration keeps the operator busy while its timers run).
+func c16CaseSlow(op timedOp, tl []tlItem, cutAt time.Duration, bound int, slow time.Duration) fw.Case {
 	nm := tlString(tl)
+	if slow > 0 {
+		nm += fmt.Sprintf(" / consumer takes %s per value", ms(int64(slow)))
+	}
 	if cutAt >= 0 {
 		nm += fmt.Sprintf(" / unsubscribe@%s", ms(int64(cutAt)))
 	}
@@ -490,8 +506,16 @@ func c16Case(op timedOp, tl []tlItem, cutAt time.Duration, bound int) fw.Case {
 	if maxT == 0 {
 		maxT = total + 3*op.d + 2*u
 	}
+	maxT += time.Duration(len(tl)+2) * slow
 	return fw.Case{Name: nm, Bound: bound, Opts: vrt.Options{Horizon: 60000, MaxTime: int64(maxT)}, Make: func() fw.Instance {
 		rec := h.NewRec("out")
+		if slow > 0 {
+			rec.Hook = func(r *h.Rec, idx int, e h.Ev) {
+				if e.K == h.N {
+					vrt.HSleep(int64(slow))
+				}
+			}
+		}
 		l := &c16log{cutAt: -1}
 		var escaped string
 		body := func() {
@@ -586,6 +610,17 @@ func init() {
 				}
 				for _, tl := range tls {
 					c.Explore(c16Case(op, tl, -1, bound))
+					if len(tl) > 0 || op.creates {
+						// shorter than the duration (a timer armed before the value can fire during its
+						// delivery) and longer (every timer armed before it has fired by the end)
+						slows := []time.Duration{op.d - u, op.d + u}
+						if op.d <= u {
+							slows[0] = op.d
+						}
+						for _, slow := range slows {
+							c.Explore(c16CaseSlow(op, tl, -1, bound-1, slow))
+						}
+					}
 					// unsubscribe at every grid instant
 					total := time.Duration(0)
 					for _, it := range tl {
